@@ -345,7 +345,10 @@ def run_ifc_case(sh, case):
         if int(v[2:], 2) != snaps[t][name]:
           sh.violation("textwave-value-differs-from-simulator-value", {"signal": name, "cycle": t, "textwave": v, "simulator": snaps[t][name],
                                                                        "design_source": src}, case=("ifc", case)); return
-    missing = [p_ for p_ in paths if not p_.endswith(".clk") and not (p_.endswith(".reset") and p_ != "s.reset") and p_ not in tw]
+    # the implicit clk / reset of COMPONENTS may be left out of the text wave; a port of an interface that is called clk / reset is data
+    comp_paths = {"s"} | {repr(c) for c in top.get_all_components()}
+    missing = [p_ for p_ in paths if p_ not in tw and p_ != "s.clk" and
+               not (p_.rsplit(".", 1)[-1] in ("clk", "reset") and p_ != "s.reset" and p_.rsplit(".", 1)[0] in comp_paths)]
     if missing:
       sh.violation("textwave-misses-signals", {"missing": missing[:5], "design_source": src}, case=("ifc", case)); return
     sh.count("ifc_designs"); sh.count("evaluations"); sh.fp(("ifc", src))
